@@ -138,7 +138,13 @@ func (f *vsF) sample() {
 	ax := []rsmt2d.Axis{rsmt2d.Row, rsmt2d.Col}[s.Choose(2, "proof_axis")]
 	smp := mk(f.a, r, c, ax)
 	for i, n := 0, s.Choose(3, "forgery_steps"); i < n; i++ {
-		switch s.Choose(7, "sample_forgery") {
+		switch s.Choose(8, "sample_forgery") {
+		case 7:
+			// the share of another row of the same column with its genuine column proof, labelled with a
+			// proof type outside the enum (on the wire the type is a signed enum)
+			smp = mk(f.a, (r+1+f.rng.IntN(size-1))%size, c, rsmt2d.Col)
+			smp.ProofType = []rsmt2d.Axis{-1, 2, 7, 255}[f.rng.IntN(4)]
+			f.step("proof-type-outside-enum")
 		case 0:
 			smp = mk(f.a, r, (c+1)%size, ax)
 			f.step("neighbour-col")
